@@ -52,6 +52,8 @@ def _runs_index(lines):
 def describe(e):
     if e.get("ev") in ("stable", "liveness_verdict"):
         return json.dumps(e)
+    if e.get("ev") == "wedged":
+        return "node %s never came back from a %s (%s): wedged" % (e.get("n"), e.get("on"), json.dumps(e.get("msg"))[:300])
     m = e.get("msg", {})
     s = "%s at %s" % (e.get("ev"), e.get("n"))
     if e.get("ev") == "deliver":
@@ -124,7 +126,7 @@ def judge(rep, pid, tier, seed, only=None, args=None, what="random adversarial s
     prefix = pid.lower() + "_"
     kinds = collections.Counter()
     for e in lines:
-        if e.get("ev") not in ("init", "stable", "liveness_verdict", "specreplay_abort"):
+        if e.get("ev") not in ("init", "stable", "liveness_verdict", "specreplay_abort", "wedged"):
             kinds[(e["ev"], e.get("msg", {}).get("k"), e.get("tmpl", ""))] += 1
             rep.distinct.add((e["ev"], e.get("msg", {}).get("k"), e.get("tmpl", ""), e["post"]["view"], e["post"]["prepared"], len(e.get("sent", []))))
     rep.extra["event_classes"] = len(kinds)
